@@ -175,6 +175,31 @@ def c06(seed, tier):
                 mism.append({"rule": name, "code_point": c, "implementation_ends": got, "B1_says": want})
                 if len(mism) > 50:
                     break
+    # "as seen from any grammar": import EVERY bundled module into this process, then sweep again: the core rules must be
+    # the same objects from every bundled class, and still accept exactly the B.1 sets
+    import importlib
+    gdir = os.path.join(os.path.dirname(P.__file__), "grammars")
+    bundled_classes = []
+    for f in sorted(os.listdir(gdir)):
+        if f.endswith(".py") and f not in ("__init__.py", "misc.py"):
+            M = importlib.import_module("abnf.grammars." + f[:-3])
+            bundled_classes += [v for v in vars(M).values() if isinstance(v, type) and issubclass(v, P.Rule) and v.__module__ == M.__name__]
+    after_pts = sorted(set(range(0x100)) | {p for ivs in classes.values() for a, b in ivs for p in (max(0, a - 1), a, b, b + 1)} | {0x212A, 0x17F, 0x130, 0x10FFFF})
+    for name, ivs in classes.items():
+        r0 = P.Rule(name)
+        for cls in bundled_classes:
+            if cls(name) is not r0:
+                mism.append({"rule": name, "what": f"{cls.__module__}.{cls.__name__} does not see the core rule object"})
+        for c in after_pts:
+            try:
+                got = [m.start for m in r0.lparse(chr(c), 0)]
+            except P.ParseError:
+                got = []
+            want = [1] if any(a <= c <= b for a, b in ivs) else []
+            n_eval += 1
+            if got != want:
+                mism.append({"rule": name, "code_point": c, "implementation_ends": got, "B1_says": want,
+                             "after": "importing every bundled grammar module"})
     # CRLF / LWSP / also every core rule on short strings vs the engine model
     alpha = [" ", "\t", "\r", "\n", "x"]
     L = 6 if tier == "thorough" else 5
